@@ -43,6 +43,7 @@ func uploadAlphabet() []upEvent {
 	body := pattern(4*pblk, 0x11)
 	foreign := bytes.Repeat([]byte{0xEE}, pblk)
 	T, F := message.Token{0xC4, 0x01}, message.Token{0xC4, 0x02}
+	Z := message.Token{0x00, 0xC4, 0x01} // a different token: T with a leading zero byte
 	var a []upEvent
 	for n := 0; n < 4; n++ {
 		a = append(a, upEvent{fmt.Sprintf("U%d%s", n, map[bool]string{true: "+", false: "!"}[n < 3]), T, n, n < 3, body[n*pblk : (n+1)*pblk]})
@@ -52,6 +53,8 @@ func uploadAlphabet() []upEvent {
 		upEvent{"stale:2+", T, 2, true, foreign},                     // middle block of another body
 		upEvent{"foreign-token:1+", F, 1, true, body[pblk : 2*pblk]}, // a block under a token nobody started
 		upEvent{"foreign-token:3!", F, 3, false, body[3*pblk:]},
+		upEvent{"zero-padded-token:0+", Z, 0, true, foreign},
+		upEvent{"zero-padded-token:1+", Z, 1, true, foreign},
 	)
 	return a
 }
@@ -266,7 +269,7 @@ func downloadPeerScenario(depth int, etag bool) *mcx.Scenario {
 }
 
 func addPeer(r *ev.Run, scs *[]*mcx.Scenario) {
-	*scs = append(*scs, uploadPeerScenario(ev.Pick(r, 5, 7)))
+	*scs = append(*scs, uploadPeerScenario(ev.Pick(r, 5, 6)))
 	*scs = append(*scs, downloadPeerScenario(ev.Pick(r, 6, 8), false))
 	*scs = append(*scs, downloadPeerScenario(ev.Pick(r, 6, 8), true))
 }
